@@ -153,5 +153,16 @@ TEXT = {
                 "process",
         "technique": "runtime monitoring: RNG-API event tap checked online against a bracket trace specification, state-snapshot conservation oracle, probe-replay oracle for the estimator",
     },
+    "C18": {
+        "level": "Held on the executions observed: histories of public operations over a pool with one operator of every kind; after "
+                 "every step the byte hashes of all caller-owned arrays and a snapshot of the operator are compared with the start "
+                 "(write sanitizer), the first call is repeated at the end; flatten/unflatten round trips with leaf identity and "
+                 "single-leaf substitution; the round trip is re-run in fresh interpreters under different orders of first "
+                 "instantiation and the verdicts are compared.",
+        "note": _NOTE + "; device moves reduce to to(None, dtype) on the only installed backend; history length <= 2 exhaustively "
+                "sampled in quick (all of length 1), all of length 2 and a sample of length 3 in thorough, plus random length-10 "
+                "histories",
+        "technique": "runtime monitoring: byte-hash write sanitizer and state snapshots around every operation of generated histories; differential oracle across fresh interpreters for instantiation-order dependence",
+    },
 }
 NOT_APPLICABLE = {}
